@@ -927,6 +927,9 @@ func init() {
 	}
 	ex["math/rand/v2.IntN"] = ex["math/rand.Intn"]
 	ex["math/rand.Float64"] = func(fr *frame, a []value) value {
+		if E.Params["RAND_CONCRETE"] == 1 {
+			return float64(0) // the harness declares randomness irrelevant
+		}
 		f := E.freshF("rand_float64", 64)
 		E.Assume(E.fpBinop(token.GEQ, types.Typ[types.Float64], f, float64(0)))
 		E.Assume(E.fpBinop(token.LSS, types.Typ[types.Float64], f, float64(1)))
